@@ -304,7 +304,11 @@ def open_ended_group_parallel_limit(case, v):
                     if ((gn, on) if side == 'src' else (on, gn)) in excl:
                         continue
                     n_max += 2 if (g_rep and o_rep) else 1
-                if n_max >= 3:
+                # a minimum above that bound is kept as the only (formerly unreachable) degree of the override list
+                g = [it for it in cc[side] if isinstance(it, dict) and it['grp'] == gn][0]
+                g_min = sum((d['min'] if isinstance(d, dict) else min(d))
+                            for d in (spec['nodes'][m].get('deg') for m in g['members']))
+                if max(n_max, g_min) >= 3:
                     return True
     return False
 
